@@ -228,7 +228,8 @@ let rec handle (p : string) : string =
      | Some v -> "pure=1;s=" ^ hx (stream_seq (nat_of_int (ios w)) (n_of_int (ios fill)) (adj = "1") (base = "16")
                                       (n_of_string n) v) ^ cls)
   (* printers are pure, hence re-entrant: no conversion may go wrong when several threads print at once *)
-  | ["thr"; t; n; _] -> Printf.sprintf "mis=0;cnt=%d;class=thr%s" (5 * ios t * ios n) t
+  | ["thr"; t; n; _] -> Printf.sprintf "mis=0;cnt=%d;class=thr%s" (11 * ios t * ios n) t
+  | ["thrf"; t; n; _; r] -> Printf.sprintf "mis=0;dead=0;cnt=%d;class=thrf%s" (11 * ios t * ios n * ios r) t
   | ["split"; d; h] ->
     let toks = string_split (txt d) (txt h) in
     Printf.sprintf "n=%d;t=%s;class=split" (List.length toks) (String.concat "," (List.map hx toks))
